@@ -26,6 +26,7 @@ class VLoop(asyncio.BaseEventLoop):
         super().__init__()
         self._vnow = 0.0
         self._seq = itertools.count()
+        self._vseq: dict = {}
         self.iterations = 0
         self.errors: List[dict] = []
         self.set_exception_handler(self._on_error)
@@ -43,7 +44,8 @@ class VLoop(asyncio.BaseEventLoop):
 
     def call_at(self, when, callback, *args, context=None):  # type: ignore[override]
         h = super().call_at(when, callback, *args, context=context)
-        h._vseq = next(self._seq)  # type: ignore[attr-defined]
+        # TimerHandle has __slots__: keep creation order in a side table
+        self._vseq[id(h)] = next(self._seq)
         return h
 
     def _on_error(self, loop: Any, context: dict) -> None:
@@ -66,7 +68,7 @@ class VLoop(asyncio.BaseEventLoop):
 
     def live_timers(self) -> list:
         ts = [h for h in self._scheduled if not h._cancelled]
-        ts.sort(key=lambda h: (h._when, getattr(h, "_vseq", 0)))
+        ts.sort(key=lambda h: (h._when, self._vseq.get(id(h), 0)))
         return ts
 
     def run_batch(self) -> int:
@@ -100,6 +102,7 @@ class VLoop(asyncio.BaseEventLoop):
             return None
         h = ts[0]
         self._scheduled.remove(h)
+        self._vseq.pop(id(h), None)
         import heapq
 
         heapq.heapify(self._scheduled)
